@@ -7,6 +7,7 @@ import (
 	"sort"
 	"time"
 
+	nfs "github.com/buildbarn/bb-remote-execution/pkg/filesystem/virtual/nfsv4"
 	"github.com/buildbarn/bb-remote-execution/pkg/verifsim/simsync"
 	"github.com/buildbarn/go-xdr/pkg/protocols/nfsv4"
 )
@@ -51,8 +52,11 @@ type client struct {
 	lastRenewStart time.Time
 	clientInflight int // deliveries of client-level requests in flight
 	inflightAll    int
-	hwmOther       uint64 // NFSv4.1: highest state ID counter value seen in a reply (state IDs are allocated in sequence per client record)
-	epoch          int    // bumped whenever the client's record is replaced or dropped
+	lastEnd        time.Time // when the last delivery that may have renewed this client's lease returned
+	silentAfter    int       // the client stops sending after so many requests per lane (0: never)
+	sessionsMade   int       // NFSv4.1: sessions created minus sessions destroyed (upper bound of what the server holds)
+	hwmOther       uint64    // NFSv4.1: highest state ID counter value seen in a reply (state IDs are allocated in sequence per client record)
+	epoch          int       // bumped whenever the client's record is replaced or dropped
 	// deadIDs: client IDs whose confirmed record the server has removed
 	// (replaced by a newer confirmation, or found expired). IDs are random
 	// and never handed out again.
@@ -212,6 +216,16 @@ func (c *client) markDead(id uint64) {
 	c.deadIDs[id] = true
 }
 
+// silent: every lane of the client has stopped sending.
+func (c *client) silent() bool {
+	for _, ln := range c.lanes {
+		if !ln.actor.Done() {
+			return false
+		}
+	}
+	return true
+}
+
 func (c *client) allOwners() []*owner {
 	var out []*owner
 	for _, ln := range c.lanes {
@@ -279,13 +293,14 @@ const (
 	kRenew
 	kRemove
 	kProbeFH
+	kTooManyOps
 )
 
 var kindName = map[opKind]string{
 	kSetClientID: "SETCLIENTID", kSetClientIDConfirm: "SETCLIENTID_CONFIRM", kExchangeID: "EXCHANGE_ID", kCreateSession: "CREATE_SESSION",
 	kDestroySession: "DESTROY_SESSION", kDestroyClientID: "DESTROY_CLIENTID", kOpen: "OPEN", kOpenConfirm: "OPEN_CONFIRM",
 	kOpenDowngrade: "OPEN_DOWNGRADE", kClose: "CLOSE", kLockNew: "LOCK(new)", kLockExist: "LOCK", kLockU: "LOCKU", kLockT: "LOCKT",
-	kReleaseLockOwner: "RELEASE_LOCKOWNER", kFreeStateID: "FREE_STATEID", kIO: "IO", kRenew: "RENEW", kRemove: "REMOVE", kProbeFH: "PUTFH",
+	kReleaseLockOwner: "RELEASE_LOCKOWNER", kFreeStateID: "FREE_STATEID", kIO: "IO", kRenew: "RENEW", kRemove: "REMOVE", kProbeFH: "PUTFH", kTooManyOps: "(too many operations)",
 }
 
 type request struct {
@@ -562,6 +577,17 @@ func (w *world) onEnd(d *delivery) {
 	}
 	d.stale = req.chainMoved()
 	w.k.Annotate("t=%v %s <- %s#%d.%d %s", w.now().Sub(startTime), d.actor, c.name, req.id, d.n, describeReply(d.res))
+	c.lastEnd = w.now()
+	if c.minor == 0 && req.kind == kIO && !isSpecialStateID(req.sid) {
+		// NFSv4.0 I/O with a regular state ID renews the lease of whichever
+		// client owns the state.
+		for _, x := range w.clients {
+			if x.minor == 0 {
+				x.lastEnd = w.now()
+			}
+		}
+	}
+	defer w.expireCertainly(d)
 	if req.canonical == nil && w.replayedOpenArtifact(req, d) {
 		// The copy that is being evaluated has not returned yet; this one
 		// was answered from the reply cache and does not tell which file
@@ -606,6 +632,58 @@ func (w *world) replayedOpenArtifact(req *request, d *delivery) bool {
 	fh := d.res.Resarray[2].(*nfsv4.NfsResop4_OP_GETFH).Opgetfh.(*nfsv4.Getfh4res_NFS4_OK).Resok4.Object
 	_, isLeaf := leafOfFH(fh)
 	return !isLeaf
+}
+
+// entersProgram: the request makes the server program look at its list of
+// idle clients (and reclaim those whose lease expired) whatever else it does.
+func (req *request) entersProgram() bool {
+	if req.cl.minor == 1 {
+		return true
+	}
+	switch req.kind {
+	case kRenew, kSetClientID, kSetClientIDConfirm, kReleaseLockOwner:
+		return true
+	}
+	return false
+}
+
+// expireCertainly: delivery d was sent, to the same server program, later than
+// one lease time after the last moment at which client x can have renewed its
+// lease, and x has been silent since. The server reclaims expired clients
+// whenever a request enters the program, so x's record, sessions, opens and
+// locks are gone now: the model drops them, and the accounting (files still
+// open, sessions retained) holds the server to that from here on.
+func (w *world) expireCertainly(d *delivery) {
+	if !d.req.entersProgram() {
+		return
+	}
+	if d.req.cl.minor == 0 {
+		// NFSv4.0 I/O with a regular state ID keeps the owning client (any
+		// client) out of the idle list while it is under way.
+		for _, r := range w.reqs {
+			if r.inflight > 0 && r.kind == kIO && r.cl.minor == 0 && !isSpecialStateID(r.sid) {
+				return
+			}
+		}
+	}
+	for _, x := range w.clients {
+		if x == d.req.cl || x.minor != d.req.cl.minor || x.inflightAll > 0 || (!x.registered && !x.hasPend && x.sessionsMade == 0) {
+			continue
+		}
+		if x.lastEnd.IsZero() || !d.start.After(x.lastEnd.Add(enforcedLease)) {
+			continue
+		}
+		w.k.Probe("lease-certainly-expired-mid-run")
+		if w.clientHoldsOpens(x) {
+			w.k.Probe("lease-certainly-expired-mid-run-with-open-files")
+		}
+		w.expiredNotes = append(w.expiredNotes, fmt.Sprintf("%s silent since t=%v, reclaimable from t=%v, %s request#%d entered the program at t=%v or later", x.name, x.lastEnd.Sub(startTime), x.lastEnd.Add(enforcedLease).Sub(startTime), d.req.cl.name, d.req.id, d.start.Sub(startTime)))
+		if x.registered {
+			x.markDead(x.id)
+		}
+		x.dropState()
+		x.registered, x.hasPend, x.sess, x.oldSessions, x.sessionsMade = false, false, nil, nil, 0
+	}
 }
 
 // cmpBytes returns the part of a reply that the replay cache must reproduce.
@@ -871,12 +949,27 @@ func (w *world) checkLeaves(final bool) {
 				if w.prop == "C19" {
 					short = "effect-not-once"
 				}
+				if cnt > hi[i][b] && len(w.expiredNotes) > 0 {
+					w.violate("not-closed-after-expiry", fmt.Sprintf("no request is in flight; file#%d (handle %x) is open for %s %d times (opened %d, closed %d) although the state of clients whose lease cannot have expired amounts to at most %d opens; leases that certainly expired and had to be reclaimed: %v; holders: %v", i, fhOfLeaf(i), bitName[b], cnt, l.opens[b], l.closes[b], hi[i][b], w.expiredNotes, w.describeHolders()))
+					return
+				}
 				w.violate(short, fmt.Sprintf("no request is in flight; file#%d (handle %x) is open for %s %d times (opened %d, closed %d) but the state the server handed out and has not released amounts to between %d and %d opens; holders: %v", i, fhOfLeaf(i), bitName[b], cnt, l.opens[b], l.closes[b], lo[i][b], hi[i][b], w.describeHolders()))
 				return
 			}
 		}
 	}
 	_ = holders
+	// Sessions: the server cannot hold more than the clients created and did
+	// not destroy; clients whose lease certainly expired count for nothing.
+	bound := 0
+	for _, c := range w.clients {
+		if c.minor == 1 {
+			bound += c.sessionsMade
+		}
+	}
+	if n := nfs.VerifStateCounts(w.prog41)["sessions"]; n > bound {
+		w.violate("records-retained", fmt.Sprintf("no request is in flight; the NFSv4.1 program holds %d sessions although the clients whose lease cannot have expired created (and did not destroy) at most %d; leases that certainly expired and had to be reclaimed: %v", n, bound, w.expiredNotes))
+	}
 }
 
 func (w *world) describeHolders() []string {
